@@ -49,7 +49,7 @@ def jobs(tier):
     take(C10, [r"spline\.bad_x", r"spline\.calc_frame", r"rfi\.window\.n5_m5", r"rfi\.search"], "interp")
     take(C05, [r"convert\..*rows3_columns3_freqs1.*_inplace$"], "vnadata")
     take(C07, [r"add_(double|complex)\.upto", r"add_integer$"], "vnacal_save")
-    take(C20, [r"add_counts\.(T8|U8|UE14|E12)_2x2_bad", r"solve_too_few\.(T8|UE14|U8)_2x2"], "vnacal_new")
+    take(C20, [r"add_counts\.(T8|U8|UE14|E12)_2x2_bad", r"solve_too_few\.(T8|UE14|U8)_2x2", r"v_matrices\.", r"refused_unknown\."], "vnacal_new")
     take(C18, [r"weights\.UE14$", r"m_error_reset\.UE14$"], "vnacal_new")
     import C11
     take(C11, [r"refused\.make_correlated\.case[0126]$", r"solve_frame\..*resolved"], "vnacal")   # refusal paths free their private copies
